@@ -50,6 +50,9 @@ pub struct TokenRing {
     /// There is always a `previous_station`.  When no other active stations are known, we are our
     /// own `previous_station`, so PS==TS.
     previous_station: crate::Address,
+
+    /// The station whose token pass was witnessed last (to recognize repeated passes)
+    last_witnessed_sender: Option<crate::Address>,
 }
 
 impl TokenRing {
@@ -64,6 +67,7 @@ impl TokenRing {
             this_station: param.address,
             next_station: param.address,
             previous_station: param.address,
+            last_witnessed_sender: None,
         }
     }
 
@@ -175,6 +179,16 @@ impl TokenRing {
         }
         if da > 125 {
             log::warn!("Witnessed token pass to invalid address #{da}<-#{sa}, ignoring.");
+            return;
+        }
+
+        // A station which does not get a reaction repeats its token pass (and finally tries the
+        // next station).  Such a pass by the station that also sent the previous one is not
+        // another token rotation and must not advance the LAS discovery/verification.  (A lone
+        // station passing the token to itself does complete a rotation each time.)
+        let repeated_pass = sa != da && self.last_witnessed_sender == Some(sa);
+        self.last_witnessed_sender = Some(sa);
+        if repeated_pass && !self.las_state.is_valid() {
             return;
         }
 
